@@ -616,3 +616,52 @@ CHECKS["C12"] = {
     ],
     "explanation": "bounded symbolic check that the real VerifyHashes of a definition / lock rejects every object whose file content differs from the object the hashes were computed for (so no hashed field is left out or confused with another by any version's hash function); ideal hash",
 }
+
+
+# ---------------------------------------------------------------------------------------------------------------
+# C14, the crash-freedom clause for charon's own versioned JSON decoders (core/signeddata.go)
+_C14R = ["encoding/json.Unmarshal=.vJSONUnmarshal"]
+_C14M = {"malformed": 0, "malformed_object": 0, "has_valindex": 1, "valindex": 1}
+
+def _c14(vers, blinded_all):
+    out = []
+    for which in (0, 1, 2, 3):
+        for ver in (vers if which != 3 else [0]):
+            for bl in ((0, 1) if which == 0 and (blinded_all or ver >= 2) else (0,)):
+                for nilpos in (0, 1, 2, 3):
+                    contents = which == 0 and ver >= 4 and bl == 0
+                    if which == 0:
+                        if nilpos == 3 and not contents:
+                            continue  # nil below the block message: inside the (ideal) hash tree root, no JSON text for it
+                        librej = (nilpos == 2 and not contents) or (nilpos == 3 and contents)
+                    elif which == 3:
+                        if nilpos == 3:
+                            continue
+                        librej = nilpos == 2
+                    else:
+                        librej = nilpos in (2, 3)
+                    g = {"harness": "VerifC14Decode", "params": {"which": which, "ver": ver, "blinded": bl, "nilpos": nilpos, "librej": int(librej)},
+                         "redirects": _C14R}
+                    if librej:
+                        g["native_expect"] = "rejected"
+                        g["native_model"] = _C14M
+                    out.append(g)
+    return out
+
+CHECKS["C14"] = {
+    "pkg": "./core",
+    "parallel": 8,
+    "quick": _c14([0, 2, 4, 5, 6], False),
+    "thorough": [dict(g, cross=True) for g in _c14([0, 1, 2, 3, 4, 5, 6], True)],
+    "bounds": {
+        "quick": "the four versioned signed types with a hand-written UnmarshalJSON (VersionedSignedProposal incl. blinded, VersionedAttestation, VersionedSignedAggregateAndProof, VersionedSignedValidatorRegistration); versions phase0, bellatrix, deneb, electra, fulu; decoder outcome: malformed (error) at the wrapper or at the object, or an object whose scalars are arbitrary and in which at most one pointer on the chain object / first pointer field / ... (depth <= 3) is nil (JSON null); then Signature, MessageRoot, DomainName, Epoch, SetSignature, Clone, json.Marshal",
+        "thorough": "all seven versions, blinded flag for every version, every VC decided by z3 and cvc5",
+    },
+    "outside": "everything else C14 states: losslessness and determinism of the SSZ/JSON/protobuf encodings (reflection-driven libraries); the SSZ decoding path (generated code allocates every pointer); types whose UnmarshalJSON is go-eth2-client's own (their null handling is the library's: where the harness relies on it the real decoder is run on the corresponding JSON text in every run and must reject it); more than one null per object; nulls inside lists; unsigned data (decoded values are cloned through SSZ before use, which fails cleanly)",
+    "assumptions": [
+        "encoding/json.Unmarshal is modelled: error, or wrapper fields = the case's version/blinded flag, or object = arbitrary scalars with every pointer populated except the case's null position; json.Unmarshal of null into a pointer-to-pointer leaves nil",
+        "go-eth2-client rejects null at: SignedBeaconBlock.message (every fork, blinded and not), SignedBlockContents.signed_block.message, Attestation.data, AttestationData.source, SignedAggregateAndProof.message, AggregateAndProof.aggregate, SignedValidatorRegistration.message - each confirmed by running the real ParSignedDataFromProto on that JSON text in every run (cases with librej=1)",
+        "HashTreeRoot = ideal hash of the receiver's value, panics on a nil receiver; Clone helpers = structural copies",
+    ],
+    "explanation": "bounded symbolic execution of the real UnmarshalJSON methods and of the operations the receive, verify and store paths apply to the result, over a model of the JSON decoder; every reachable panic is replayed through the real decoder on real JSON text",
+}
